@@ -1,4 +1,5 @@
 import OpusProofs.CeltCallees2Mdct
+import OpusProofs.CeltCallees2Bfly
 import OpusModel.CeltIdxCalls
 /-
   C01 (decoding is total and memory-safe), slice CeltCallees2 — index-safety bridge into the CELT decoder interior,
@@ -61,6 +62,22 @@ theorem fft_butterflies_in_bounds :
     `twiddles[352]` (`4·11·8`). -/
 example : (stagesOf (kfft 0)).map (·.p) = [4, 2, 4, 3, 5] ∧ touches (fftImplHits (kfft 0)) .fout 479 = true ∧
     touches (fftImplHits (kfft 0)) .tw 380 = true ∧ touches (fftImplHits (kfft 3)) .tw 352 = true := by decide +kernel
+
+/-- **fft_butterfly_strides_general.**  The same fact structurally, for ARBITRARY stage parameters: whenever a stage
+    `(p, m, N = fstride[i], mm, fstride << shift)` satisfies the arithmetic condition `StageSafe` — `m ≥ 1`, `N ≥ 1`, the last
+    group ends inside `nfft` (`(N−1)*mm + p*m ≤ nfft`; `8N ≤ nfft` for radix 2 and `4N ≤ nfft` for radix 4 with `m = 1`, whose
+    loops advance `Fout` by a constant), the largest twiddle index `(p−1)*(m−1)*fstride` resp. `m*fstride`, `2*m*fstride` is
+    below the table length — every element `kf_bfly2/3/4/5` touch is inside `fout[0 .. nfft)` and `twiddles[0 .. twLen)`; and
+    every stage of the four regenerated factor lists satisfies the condition with `twLen = 480`. -/
+theorem fft_butterfly_strides_general :
+    (∀ (s : Stage) (nfft twLen : Int), StageSafe s nfft twLen → All (InB (bflyB nfft twLen)) (bflyHits s)) ∧
+    (∀ s : Fin 4, ∀ g ∈ stagesOf (kfft s.val), StageSafe g (kfft s.val).nfft twiddleLen) :=
+  ⟨bfly_in, stages_safe⟩
+
+/-- Non-vacuity / sharpness: the radix-5 stage of the 480-point FFT is safe with `nfft = 480` but not with 479, and its
+    twiddle reach is sharp (`4·95·1 = 380`: safe with a 381-entry table, not with 380). -/
+example : StageSafe ⟨0, 5, 96, 1, 1, 1⟩ 480 381 ∧ ¬ StageSafe ⟨0, 5, 96, 1, 1, 1⟩ 479 480 ∧ ¬ StageSafe ⟨0, 5, 96, 1, 1, 1⟩ 480 380 ∧
+    (stagesOf (kfft 0)).getLast? = some ⟨0, 5, 96, 1, 1, 1⟩ := by decide
 
 /-- **mdct_backward_in_contract.**  `clt_mdct_backward_c(l, in, out, window, overlap, shift, stride)` on the static mode,
     for EVERY shift `0 .. 3`, EVERY `stride ≥ 0` and EVERY `overlap ≥ 0` with `overlap − overlap/2 ≤ N/2`
